@@ -688,7 +688,7 @@ def run_pinned(ctx):
 
 
 def check_C01(ctx):
-    family_a(ctx, {"nfree_q": 200, "nfree_t": 5000, "extra": [("sizes", 256)]})
+    family_a(ctx, {"nfree_q": 200, "nfree_t": 5000, "extra": [("sizes", 256), ("chain", 150)]})
 
 
 def check_C02(ctx):
